@@ -15,13 +15,24 @@ the model validates that it is a permutation of the right set, the theorems hold
 
 User code is represented by fault scripts (`Blk.f…` flags: the hook raises) and durations.
 The model mirrors the code WITH the repairs patches/C08-run-tasks-cancel.diff (`_run_tasks`
-cancels what it did not await to the end), patches/C04-no-timer-after-stop.diff (a stopped
+cancels what it did not await to the end), patches/C08-run-tasks-awaits-cancelled.diff (… and
+waits, bounded, until the tasks it cancelled have ended), patches/C08-shutdown-shields-simtask.diff
+(a cancellation of the caller of `shutdown()` is not forwarded to the simulation task), patches/C04-no-timer-after-stop.diff (a stopped
 FSM arms no timer), patches/C08-fsm-timers-from-start.diff (nor does an FSM that was never
 started), patches/C08-wait-init-helper.diff (`wait_init` cancels its helper).
 
 One behaviour of the code that contradicts the property is modelled as it is (known finding,
 see known_findings.json): an OutputAsync block that was never initialised loses its stop_data
 (`outaDelivers`).
+
+Two further behaviours that contradict the property are NOT mirrored, the model says what the
+property demands (the harness' oracle reports them as known findings, which covers the divergence
+on those scenarios): a `stop_async` that ends with a CancelledError of its own is taken by
+`_run_tasks` for a cancellation of the simulator (model: an error of that block's clean-up like
+any other, `stopOwnCancel`); the main task of a block whose `start()` raised AFTER
+`AddonMainTask.start()` is never stopped (model: a start() fault is a start() fault).  The third,
+an OutputFunc receiving the on_success event of another OutputFunc's stop_data after its own
+stop(), IS mirrored (`chain`).
 
 Time: natural numbers (the harness uses milliseconds of the virtual clock); instant 0 is the
 moment `run_forever` yields after the `start()` loop.
@@ -56,6 +67,7 @@ structure Blk where
   fHandler : Bool := false
   fStop : Bool := false
   fStopAsync : Bool := false
+  stopOwnCancel : Bool := false     -- stop_async ends with a CancelledError of its own (a worker it cancelled and awaits)
   fRestoreCalc : Bool := false      -- timer block: calc_output raises / returns UNDEF on the restored state
   mainFailAt : Option Nat := none   -- the main task raises / returns at this instant
   -- configuration
@@ -92,6 +104,24 @@ def CauseKind.isInner : CauseKind → Bool
   | .innerShutdown | .innerAbort => true
   | _ => false
 
+/-- a second termination cause that arrives while the clean-up is in progress -/
+inductive Second where
+  | callerCancel    -- the task that awaits `shutdown()` is cancelled (directly, or by `run()` because another
+                    -- supporting coroutine has ended)
+  | supportEnd | supportFail    -- a (further) supporting coroutine of `run()` returns / raises
+  | abort | sigterm | shutdown  -- `abort()`, SIGTERM, another `shutdown()` call
+  deriving DecidableEq, Repr, Inhabited
+
+/-- does the second cause cancel the simulation task (and with it the clean-up in progress)?  Never:
+    `abort()` only records the FIRST error and cancels the task then; the SIGTERM handler and a second
+    `shutdown()` go through `abort()`; `run()` cancels the supporting tasks only and calls `abort()`;
+    `shutdown()` awaits the simulation task through `asyncio.shield`
+    (patches/C08-shutdown-shields-simtask.diff), so the cancellation of its caller stops there -/
+def Second.cancelsSimtask : Second → Bool
+  | .callerCancel => false
+  | .supportEnd | .supportFail => false
+  | .abort | .sigterm | .shutdown => false
+
 structure Cause where
   kind : CauseKind := .shutdown
   before : Bool := false        -- abort() called before run_forever was started
@@ -100,6 +130,7 @@ structure Cause where
   raiseAfter : Bool := false    -- inner causes: an ordinary exception (the next evaluated CBlock
                                 -- raises) ends the try block before the task awaits anything
   late : Bool := false          -- a further request arrives during the clean-up (abort() ignores it)
+  second : Option (Second × Nat) := none   -- a SECOND termination cause, so many ms after the first
   deriving Repr, Inhabited
 
 /-- what the persistent storage does when the simulation is being stopped -/
@@ -302,13 +333,21 @@ def arm (bs : List Blk) (s : CState) (j : Nat) : CState :=
     { s with timers := j :: s.timers.filter (· != j) }
   else s
 
+/-- the on_success event of OutputFunc `k` when its destination is another OutputFunc: that block's
+    function is called with the result -- whether or not the destination was started or is stopped
+    already (known finding C08-outputfunc-event-after-stop) -/
+def chain (bs : List Blk) (k : Nat) : List Ev :=
+  match (blk bs k).onSuccess with
+  | some j => if (blk bs j).kind == .outf then [Ev.out j false] else []
+  | none => []
+
 /-- `stop()` of one block of the synchronous set -/
 def stopSync (bs : List Blk) (s : CState) (k : Nat) : CState × List Ev :=
   let b := blk bs k
   -- OutputFunc.stop: the function is called with stop_data, on_success events are sent
   let s1 := if b.kind == .outf && b.stopData then
       (match b.onSuccess with | some j => arm bs s j | none => s) else s
-  let evs := if b.kind == .outf && b.stopData then [Ev.stop k, Ev.out k true] else [Ev.stop k]
+  let evs := if b.kind == .outf && b.stopData then [Ev.stop k, Ev.out k true] ++ chain bs k else [Ev.stop k]
   -- FSM.stop: _stop_timer, no timers from now on
   ({ timers := s1.timers.filter (· != k), stopped := k :: s1.stopped, started := s1.started }, evs)
 
@@ -334,7 +373,7 @@ def stopJob (bs : List Blk) (failed : List Nat) (inited : List Nat) (k : Nat) : 
   else if failed.contains k then
     -- `await self._mtask` re-raises the main task's exception
     ⟨k, some 0, b.stopTimeout, false, 0⟩
-  else ⟨k, some (b.cancelDur + b.stopDur), b.stopTimeout, !b.fStopAsync, 0⟩
+  else ⟨k, some (b.cancelDur + b.stopDur), b.stopTimeout, !(b.fStopAsync || b.stopOwnCancel), 0⟩
 
 def immediate (bs : List Blk) (failed : List Nat) (inited : List Nat) (k : Nat) : Bool :=
   ((blk bs k).kind == .outa || (blk bs k).kind == .aplain || failed.contains k)
@@ -344,7 +383,11 @@ def immediate (bs : List Blk) (failed : List Nat) (inited : List Nat) (k : Nat) 
     CancelledError of the time-out (`except CancelledError: pass` around the awaited control
     task, which is cancelled with it) and returns normally -/
 def seenRes (bs : List Blk) (e : JobEnd) : Res :=
-  if (blk bs e.k).kind == .outa && e.res == .timeout then .ok else e.res
+  if (blk bs e.k).kind == .outa && e.res == .timeout then .ok
+  -- a CancelledError of its own is what the coroutine ends with; for the clean-up it is an error of
+  -- that block like any other (see the header: the code takes it for a cancellation of the simulator)
+  else if (blk bs e.k).stopOwnCancel && e.res == .err then .cancelled
+  else e.res
 
 def sortEnds (l : List JobEnd) : List JobEnd := l.mergeSort (fun a b => a.time ≤ b.time)
 
@@ -511,7 +554,7 @@ def plan (c : Cfg) : Plan :=
   let initDone := phase == .evalFailed || phase == .running
   { startEvs := sl.1, started := started, phase := phase, termTime := tT, isError := isErr
     initRes := initRes, failed := failed, inited := pass2
-    puts := putBlocks.map (Ev.out · false), timers := sRun.timers
+    puts := putBlocks.flatMap (fun k => Ev.out k false :: chain bs k), timers := sRun.timers
     helper := c.waitInit && !initDone
     initEnd := if initDone then some ir.2.1 else none
     byCause := ext.2.2
@@ -613,7 +656,7 @@ def finish (c : Cfg) (p0 : Plan) : Option Result :=
   let bs := c.blocks
   let p := consumePending p0
   if !(permOf c.oa (setA bs p.started) && permOf c.os (setS bs p.started)) then none
-  else if p.pendingCancel && !c.oa.isEmpty then
+  else if (p.pendingCancel || (c.cause.second.any fun x => x.1.cancelsSimtask)) && !c.oa.isEmpty then
     -- a cancellation that were still pending now would end `_stop_sblocks` at its first await:
     -- after the stop() calls of the asynchronous set, nothing else
     some {
